@@ -1,6 +1,6 @@
 (* Route area — correspondence functions evaluated by the generated case files. *)
 From FoxBase Require Import Bytes.
-From FoxRoute Require Import Node Lookup Spec Tree.
+From FoxRoute Require Import Node Lookup HostPort Spec Tree.
 Open Scope char_scope.
 
 Definition kv_eqb (a b : kv) : bool := bytes_eqb (fst a) (fst b) && bytes_eqb (snd a) (snd b).
@@ -15,7 +15,10 @@ Definition obs_eqb (a b : obs) : bool :=
   | _, _ => false
   end.
 
-Record lreq := { q_method : bytes; q_host : bytes (* stripped host *); q_path : bytes;
+Record lreq := { q_method : bytes;
+                 q_rawhost : bytes;                  (* the Host header as received *)
+                 q_host : bytes;                     (* netutil.StripHostPort(Host) as computed by the implementation *)
+                 q_path : bytes;
                  q_lookup : obs;                     (* Router.Lookup: route, tsr, Params() *)
                  q_reverse : option (bytes * bool);  (* Router.Reverse: route, tsr (lazy) *)
                  q_spec : bool }.                    (* request inside the domain of the specification *)
@@ -34,10 +37,11 @@ Definition res_obs (r : lres) : option obs :=
   end.
 
 Definition model_lookup (c : lcase) (lazy : bool) : lres :=
-  let '(r, q) := c in roots_lookup big_fuel r (q_method q) (q_host q) (q_path q) lazy [] [].
+  let '(r, q) := c in roots_lookup big_fuel r (q_method q) (strip_host_port (q_rawhost q)) (q_path q) lazy [] [].
 
 Definition lmodel_agrees (c : lcase) : bool :=
   let q := snd c in
+  bytes_eqb (strip_host_port (q_rawhost q)) (q_host q) &&
   match res_obs (model_lookup c false) with
   | Some o => obs_eqb o (q_lookup q)
   | None => false
@@ -59,7 +63,7 @@ Definition method_patterns (r : roots) (m : bytes) : list bytes :=
 
 Definition spec_obs (c : lcase) : obs :=
   let '(r, q) := c in
-  match spec_lookup (method_patterns r (q_method q)) (q_host q) (q_path q) with
+  match spec_lookup (method_patterns r (q_method q)) (strip_spec (q_rawhost q)) (q_path q) with
   | SNone => ONone
   | SDirect p ps => OFound p false ps
   | STsr p ps => OFound p true ps
